@@ -77,6 +77,12 @@ fn main() {
     }
     let mode = args[2].as_str();
     let file = args.get(3).map(|s| s.as_str());
+    if args[1] == "C20W" {
+        std::process::exit(props::c20::worker_main(&args[2..]));
+    }
+    if args[1] == "C20" {
+        std::process::exit(props::c20::main_c20(mode, file));
+    }
     let code = match args[1].as_str() {
         "C01" => drive(props::c01::C01, mode, file),
         "C02" => drive(props::c02::C02, mode, file),
